@@ -4,6 +4,7 @@ from einx._src.adapter.einx_from_namedtensor import solve as _solve2
 from einx._src.frontend.errors import SyntaxError
 from einx._src.frontend.errors import RankError
 from einx._src.namedtensor import ExpressionIndicator
+import einx._src.namedtensor.stage1 as stage1
 import einx._src.namedtensor.stage3 as stage3
 from collections import defaultdict
 import numpy as np
@@ -56,6 +57,7 @@ def _solve(description, tensor_shapes, parameters, reraise, cse, require_expande
         indicator = ExpressionIndicator(description)
         raise SyntaxError(description, pos=indicator.get_pos_for_literal("->"), message="The expression must not contain a '->' operator.\n%EXPR%")
     try:
+        stage1.parse_op(description)  # Report syntax errors for the given description rather than for the extended one below
         exprs_in, exprs_out = _parse_op(f"{description} ->", el_op=None, invocation=invocation, allow_concat=True)
         exprs_in, exprs_out = _solve2(exprs_in, exprs_out, tensor_shapes, invocation, parameters, cse_concat=True, cse=cse)
         if require_expanded_ellipses and any(
